@@ -3,7 +3,7 @@ CONSTANTS
   MaxLen = 4
   MaxVariants = 3
   EmitCases = TRUE
-  Alphabet = {"F", "f", "O", "o", "B", "a", "A", "n", "#", "r"}
+  Alphabet = {"F", "f", "O", "o", "n", "B", "a"}
 INVARIANTS
   P_C13_Exact
   P_C13_OwnName
